@@ -15,9 +15,7 @@ def esc(s):
     return s.replace('(', '[').replace(')', ']')
 
 
-def enc(value):
-    """Python property value -> S-expression understood by `Val.ofSx?`."""
-    sh = shape(value)
+def enc_shape(sh):
     if sh[0] == 'kw':
         return ['kw', esc(sh[1])] if sh[1] else ['kw']
     if sh[0] == 'dim':
@@ -26,12 +24,19 @@ def enc(value):
         return ['num', sh[1]]
     if sh[0] == 'strs':
         return ['strs', *[esc(x) for x in sh[1]]]
+    if sh[0] == 'null':
+        return ['null']
+    if sh[0] == 'tup':
+        return ['tup', *[enc_shape(x) for x in sh[1]]]
     return ['tag', esc(sh[1]), sh[2]]
 
 
-def canon(value):
-    """Python property value -> the text `Val.render` prints."""
-    sh = shape(value)
+def enc(value):
+    """Python property value -> S-expression understood by `Val.ofSx?`."""
+    return enc_shape(shape(value))
+
+
+def canon_shape(sh):
     if sh[0] == 'kw':
         return 'kw:' + sh[1]
     if sh[0] == 'dim':
@@ -40,7 +45,16 @@ def canon(value):
         return 'num:' + frac(sh[1])
     if sh[0] == 'strs':
         return 'strs:' + ','.join(sh[1])
+    if sh[0] == 'null':
+        return 'null'
+    if sh[0] == 'tup':
+        return 'tup[' + '|'.join(canon_shape(x) for x in sh[1]) + ']'
     return f'tag:{sh[1]}:{frac(sh[2])}'
+
+
+def canon(value):
+    """Python property value -> the text `Val.render` prints."""
+    return canon_shape(shape(value))
 
 
 def outcome(fn, render=canon):
